@@ -22,8 +22,11 @@ if [ ! -f $B/.ok ]; then
   cp $VERIF/harness/go.sum $B/harness.sum
   (cd $VERIF/harness && go build -tags verif -modfile=$B/harness.mod -o $B/harness/ ./cmd/...) >&2
   touch $B/.ok
-  # drop stale builds (keep the 3 most recent)
-  ls -1dt $VERIF/build/*/ 2>/dev/null | tail -n +4 | xargs -r rm -rf
+  # drop stale builds: keep the 3 most recent and anything used in the last 10 hours
+  # (a long thorough run must not lose its binaries to later rebuilds)
+  for d in $(ls -1dt $VERIF/build/*/ 2>/dev/null | tail -n +4); do
+    [ -n "$(find "$d" -maxdepth 0 -mmin +600)" ] && rm -rf "$d"
+  done
 fi
 if [ $WANT_RACE = 1 ] && [ ! -f $B/.ok-race ]; then
   mkdir -p $B/race/bin
